@@ -1,35 +1,201 @@
-"""C13 — UDP flows: ordered exactly-once task handling over one stable, leak-free endpoint."""
-import json, os
+"""C13 — UDP flows: ordered exactly-once task handling over one stable, leak-free endpoint.
+
+prove  : lake build DaeVerif.C13.Props (+ axiom audit, forbidden-construct scan)
+tie    : harness/overlay/control/c13_*.go run the REAL udp_task_pool.go (schedule replay through the
+         `verif` yield points), udp_conn_state_tracker.go, control_plane_drain.go, udp_flow.go and
+         udp_endpoint_pool.go; lean/DaeVerif/C13/Main.lean evaluates the same op lines on the models
+         the theorems are about; outputs are diffed line by line
+report : first disagreeing schedule / sequence as replay; property-level oracles on the
+         implementation's own outputs (nothing lost or reordered, one dial, closed exactly once)
+"""
+import hashlib, json, os, re
 from verifkit import read_lines
 
-REQUIRED = []
+REQUIRED = [
+    # (a) task queues
+    "DaeVerif.C13.Props.tq_exactly_once_in_order",
+    "DaeVerif.C13.Props.tq_no_duplicate_no_cross_flow",
+    "DaeVerif.C13.Props.tq_one_at_a_time",
+    "DaeVerif.C13.Props.tq_recycled_channel_empty",
+    "DaeVerif.C13.Props.tq_never_stranded",
+    "DaeVerif.C13.Props.tq_convoy_can_step",
+    "DaeVerif.C13.Props.legacy_gc_loses_task",
+    "DaeVerif.C13.Props.legacy_pop_reorders",
+    # (b) tuple tracker
+    "DaeVerif.C13.Props.trk_refs_equal_owners",
+    "DaeVerif.C13.Props.trk_delete_exactly_when_last_owner_leaves",
+    "DaeVerif.C13.Props.trk_only_release_deletes",
+    "DaeVerif.C13.Props.trk_no_retain_during_delete",
+    "DaeVerif.C13.Props.trk_finalize_wakes_waiters",
+    "DaeVerif.C13.Props.trk_handover_never_deletes",
+    # (c) drain tickets
+    "DaeVerif.C13.Props.drain_count_is_live_tickets",
+    "DaeVerif.C13.Props.drain_release_once",
+    # (d) endpoint keys and pool
+    "DaeVerif.C13.Props.key_same_source_same_key",
+    "DaeVerif.C13.Props.key_lookup_finds_dial_key",
+    "DaeVerif.C13.Props.key_scope_fields",
+    "DaeVerif.C13.Props.ep_handout_iff_usable",
+    "DaeVerif.C13.Props.ep_recent_failure_blocks_dial",
+    "DaeVerif.C13.Props.ep_created_is_fresh",
+    "DaeVerif.C13.Props.ep_dead_and_closed_are_final",
+    "DaeVerif.C13.Props.ep_never_handed_out_again",
+    "DaeVerif.C13.Props.ep_retire_spec",
+    "DaeVerif.C13.Props.ep_transport_closed_once_with_endpoint",
+    "DaeVerif.C13.Props.ep_close_releases_once",
+]
 
-STREAMS = ["c13_tq"]
+STREAMS = ["c13_tq", "c13_trk", "c13_drn", "c13_key", "c13_ep", "c13_epc"]
+HARNESS = ["control/c13_test.go", "control/c13_seq_test.go", "control/c13_ep_test.go"]
+RESET = {"c13_tq": "tq reset", "c13_trk": "trk reset", "c13_drn": "drn reset", "c13_ep": "ep reset", "c13_epc": "ep reset"}
+
+
+def segment(ops, impl, lineno, reset_prefix):
+    """the op lines (with the implementation's answers) of the schedule/sequence containing `lineno` (1-based)"""
+    i = lineno - 1
+    start = i
+    while start > 0 and not ops[start].startswith(reset_prefix):
+        start -= 1
+    return [f"{o}  =>  {a}" for o, a in zip(ops[start:i + 1], impl[start:i + 1])]
+
+
+def tq_oracle(ctx, ops, impl):
+    """implementation-side property check: at the end of every schedule (after the drain) each flow's
+    execution log equals its acceptance log, and no task ran twice or under a flow it was not emitted for."""
+    n_sched = n_tasks = 0
+    sigs = set()
+    start = 0
+    bounds = [i for i, o in enumerate(ops) if o.startswith("tq reset")] + [len(ops)]
+    for a, b in zip(bounds, bounds[1:]):
+        n_sched += 1
+        sched = [o for o in ops[a:b] if o.startswith(("tq run", "tq auto", "tq spawn"))]
+        sigs.add(hashlib.sha1("\n".join(sched).encode()).hexdigest())
+        last = {}
+        for o, im in zip(ops[a:b], impl[a:b]):
+            if o.startswith("tq log "):
+                last[o] = im
+        for o, im in last.items():
+            m = re.match(r"done=(\S+) accepted=(\S+)", im)
+            if not m:
+                continue
+            done, acc = m.group(1), m.group(2)
+            n_tasks += 0 if acc == "-" else len(acc.split(","))
+            if done != acc:
+                ctx.report(f"task queue (real code): flow {o.split()[2]} finished `{done}` but accepted `{acc}` at the end of the schedule "
+                           f"(a task was lost, duplicated, reordered or ran under another flow)",
+                           {"stream": "c13_tq", "schedule": [f"{x}  =>  {y}" for x, y in zip(ops[a:b], impl[a:b])][:4000]})
+                return n_sched, n_tasks, sigs
+    return n_sched, n_tasks, sigs
+
+
+def ep_oracle(ctx, ops, impl):
+    """implementation-side: no transport is ever closed twice; after the final quiet period every dialled
+    endpoint is closed exactly once, the pool is empty, no drain ticket and no tracked tuple is left."""
+    n_seq = 0
+    bounds = [i for i, o in enumerate(ops) if o.startswith("ep reset")] + [len(ops)]
+    for a, b in zip(bounds, bounds[1:]):
+        n_seq += 1
+        last_st = None
+        for o, im in zip(ops[a:b], impl[a:b]):
+            if o == "ep st":
+                last_st = im
+                if re.search(r":f\dd\dc([2-9]|\d\d)", im):
+                    ctx.report("endpoint pool (real code): a transport was closed more than once: " + im[:300],
+                               {"stream": "c13_ep", "sequence": [f"{x}  =>  {y}" for x, y in zip(ops[a:b], impl[a:b])][:2000]})
+                    return n_seq
+        if last_st and ops[b - 2].startswith("ep adv 130000"):
+            bad = None
+            if not last_st.startswith("pool=- "):
+                bad = "pool not empty after the quiet period"
+            elif " drn=0,0 " not in last_st:
+                bad = "drain tickets left after every endpoint expired"
+            elif "trk0[e=- blocked=0] trk1[e=- blocked=0]" not in last_st:
+                bad = "tracked conn-state tuples left after every endpoint expired"
+            elif re.search(r"\d+:f0d\dc0", last_st):
+                bad = "a dialled endpoint was never closed"
+            if bad:
+                ctx.report(f"endpoint pool (real code): {bad}: {last_st[:300]}",
+                           {"stream": "c13_ep", "sequence": [f"{x}  =>  {y}" for x, y in zip(ops[a:b], impl[a:b])][:2000]})
+                return n_seq
+    return n_seq
 
 
 def run(ctx):
+    ctx.trusted += [
+        "Go runtime: goroutine scheduling fairness, channel / sync.Map / sync.Mutex / atomic semantics as assumed by the model's atomic steps; sync.Pool modelled as a bag (Get = any element or a fresh channel)",
+        "testing/synctest (virtual time and quiescence detection for the schedule replays and the pool's timers)",
+        "the `verif` yield points (control/verif_hooks_on.go) park goroutines only between the shared-memory accesses the model treats as separate steps; segments between two yield points with more than one access are listed in design_notes/C13.md",
+        "fake dialers / transport conns / reply handlers of the harness stand for real proxies and sockets; kernel conn-state deletes are observed as BeginRelease results (no BPF map in the sandbox)",
+    ]
+    ctx.assumptions = [
+        "task pool Close/Reset and panicking tasks are outside the property's quantifier and not modelled",
+        "endpoint pool: operations are modelled as atomic (sequential specification); two concurrency windows (concurrent first packets, retire vs re-creation) are replayed and compared in linearisation order; direct (non-proxy) dialers only",
+        "tuple tracker theorems assume the client discipline (release/forget only what was retained), which the endpoint model follows",
+    ]
     ctx.prove(["DaeVerif.C13.Props"], ["DaeVerif.C13.Props"], ["DaeVerif/C13/*.lean"], extra_targets=["c13drv"])
     ctx.required_theorems(REQUIRED)
-    binp = ctx.go_test_build("control", ["control/c13_test.go"], "c13", tags="verif,dae_stub_ebpf")
+
+    binp = ctx.go_test_build("control", HARNESS, "c13", tags="verif,dae_stub_ebpf")
     if not binp:
         return 2
-    rc, out = ctx.run_harness(binp, "TestVerifC13")
+    rc, out = ctx.run_harness(binp, "TestVerifC13", timeout=1500)
     if rc != 0:
-        ctx.say("HARNESS-FAILED", out[-3000:])
-        return 2
+        ctx.say("HARNESS-FAILED", out[-4000:])
+        # a crash of the real code under a forced schedule is a finding in its own right
+        m = re.search(r"(panic: .*|fatal error: .*|c13: .*)", out)
+        ctx.report("harness run on the real code failed: " + (m.group(1) if m else out[-300:]), {"output": out[-6000:]})
+        return ctx.finish(rule="", evaluations=0, distinct=0)
+
     total = 0
+    distinct = set()
+    per_stream = {}
     for name in STREAMS:
-        ops, impl, model = (os.path.join(ctx.out, name + "." + e) for e in ("ops", "impl", "model"))
-        if not os.path.exists(ops):
+        ops_p, impl_p, model_p = (os.path.join(ctx.out, name + "." + e) for e in ("ops", "impl", "model"))
+        if not os.path.exists(ops_p):
             ctx.say("HARNESS-FAILED missing stream", name)
             return 2
-        if not ctx.driver("c13drv", ops, model):
-            ctx.proof_failures.append("model driver c13drv failed to run")
-        mism = ctx.diff_streams(ops, impl, model, name)
-        total += len(read_lines(ops))
-        for ln, op, im, mo in mism[:5]:
-            ctx.report(f"implementation differs from proved model at {name} line {ln}: op `{op}` impl `{im}` model `{mo}`",
-                       {"stream": name, "line": ln, "op": op, "impl": im, "model": mo})
+        if not ctx.driver("c13drv", ops_p, model_p):
+            ctx.proof_failures.append("model driver c13drv failed to run on " + name)
+        mism = ctx.diff_streams(ops_p, impl_p, model_p, name)
+        ops, impl = read_lines(ops_p), read_lines(impl_p)
+        total += len(ops)
+        per_stream[name] = len(ops)
+        for ln, op, im, mo in mism[:1]:
+            if ln == 0:
+                ctx.report(f"{name}: {op}", {"stream": name})
+                continue
+            seg = segment(ops, impl, ln, RESET.get(name, "\x00"))
+            ctx.report(f"real code differs from the proved model in {name} at line {ln}: op `{op}` real `{im}` model `{mo}`",
+                       {"stream": name, "line": ln, "op": op, "impl": im, "model": mo,
+                        "schedule_up_to_here": seg[-1500:],
+                        "rerun": f"VERIF_SEED={ctx.seed} ./check C13 {ctx.tier}"})
+        if name == "c13_tq":
+            n_sched, n_tasks, sigs = tq_oracle(ctx, ops, impl)
+            ctx.cov["tq_schedules"] = n_sched
+            ctx.cov["tq_tasks_checked_exactly_once_in_order"] = n_tasks
+            distinct |= {("tq", s) for s in sigs}
+        elif name == "c13_ep":
+            ctx.cov["ep_sequences"] = ep_oracle(ctx, ops, impl)
+            distinct |= {("ep", o, i) for o, i in zip(ops, impl) if not o.startswith("ep st")}
+        elif name == "c13_epc":
+            for o, im in zip(ops, impl):
+                if o == "ep stx" and im.startswith("pool=0:0 ") and "dials=1 " not in im:
+                    ctx.report("endpoint pool (real code): concurrent first packets of one source caused more than one dial: " + im,
+                               {"stream": name})
+                    break
+            distinct |= {("epc", o, i) for o, i in zip(ops, impl)}
+        else:
+            distinct |= {(name, o) for o in ops}
+
     stats = json.load(open(os.path.join(ctx.out, "c13.stats.json")))
     ctx.cov["input_distribution"] = stats["counters"]
-    return ctx.finish(rule="", evaluations=total, distinct=0)
+    ctx.cov["ops_per_stream"] = per_stream
+    tq_ops = read_lines(os.path.join(ctx.out, "c13_tq.ops"))
+    ep_ops = read_lines(os.path.join(ctx.out, "c13_ep.ops"))
+    ctx.samples = tq_ops[1:6] + [o for o in ep_ops if o.startswith("ep goc")][:3] + \
+        read_lines(os.path.join(ctx.out, "c13_trk.ops"))[1:3] + read_lines(os.path.join(ctx.out, "c13_key.ops"))[:2]
+    return ctx.finish(
+        rule="evaluations = op lines compared (one op = one released goroutine segment / one pool, tracker, drain or key-function call, "
+             "plus the state digests after it); distinct_nontrivial = distinct task-queue schedules (hash of the run/auto/spawn lines) "
+             "+ distinct (op, real answer) pairs of the endpoint streams + distinct op lines of the tracker / drain / key streams",
+        evaluations=total, distinct=len(distinct))
